@@ -59,6 +59,15 @@ void _ZNSt9exceptionD1Ev(char *self) { }
 void _ZNSt13runtime_errorD2Ev(char *self) { }
 void _ZNSt13runtime_errorD1Ev(char *self) { }
 void _ZNSt11logic_errorD2Ev(char *self) { }
+/* std::runtime_error / std::logic_error out-of-line members (libstdc++.so): the message is kept as a pointer */
+void _ZNSt13runtime_errorC2EPKc(char *self, char *msg) { *(char **)(self + 8) = msg; }
+void _ZNSt13runtime_errorC1EPKc(char *self, char *msg) { *(char **)(self + 8) = msg; }
+void _ZNSt13runtime_errorC1ERKNSt7__cxx1112basic_stringIcSt11char_traitsIcESaIcEEE(char *self, char *str) { *(char **)(self + 8) = *(char **)str; }
+void _ZNSt13runtime_errorC2ERKNSt7__cxx1112basic_stringIcSt11char_traitsIcESaIcEEE(char *self, char *str) { *(char **)(self + 8) = *(char **)str; }
+char *_ZNKSt13runtime_error4whatEv(char *self) { return *(char **)(self + 8); }
+char *_ZNSt13runtime_erroraSEOS_(char *self, char *other) { *(char **)(self + 8) = *(char **)(other + 8); return self; }
+void _ZNSt11logic_errorC2EPKc(char *self, char *msg) { *(char **)(self + 8) = msg; }
+void _ZNSt11logic_errorC1EPKc(char *self, char *msg) { *(char **)(self + 8) = msg; }
 void __clang_call_terminate(char *e) { vf_terminated = 1; VF_ASSUME(0); }
 void _ZSt9terminatev(void) { vf_terminated = 1; VF_ASSUME(0); }
 void __cxa_call_unexpected(char *e) { vf_terminated = 1; VF_ASSUME(0); }
